@@ -324,6 +324,40 @@ def gen_program(rng, tid, **opts):
     return p
 
 
+DEEP_SHAPES = ("elif", "elif", "elif", "nest", "nest", "or", "and", "not")
+# sizes around the places where today's interpreter gives up on such a text (nesting limits of compile(), the recursion limit)
+DEEP_SIZES = (60, 95, 105, 190, 210, 420, 700, 880, 960, 1040, 1200, 1450, 1700, 1950, 2050, 2300, 2600, 2900, 3400)
+
+
+def deep_program(rng, tid, name, shape=None, n=None):
+    """One experiment whose conditional is `n` levels long or deep. Whether the tree accepts it is the tree's business
+    (long chains end in a RecursionError, deep nests in compile()'s nesting limits): what matters here is that the answer
+    depends on process-wide limits, so it is the same every time only if nothing moves them."""
+    shape = shape or rng.choice(DEEP_SHAPES)
+    n = n or rng.choice(DEEP_SIZES)
+
+    def ret(k):
+        return 'return "%s.%s" weighted %d, "%s.%s.b" weighted 1' % (tid, k, rng.choice([1, 2, 3]), tid, k)
+
+    if shape == "elif":
+        body = "if " + " else if ".join("x == %d { %s }" % (i, ret(i % 7)) for i in range(n)) + " else { %s }" % ret("z")
+    elif shape == "nest":
+        body = "".join("if x >= %d { " % i for i in range(n)) + ret("in") + "".join(" } else { %s }" % ret(i % 5) for i in range(n))
+    elif shape in ("or", "and"):
+        body = "if " + (" %s " % shape).join("x %s %d" % ("==" if shape == "or" else ">=", i) for i in range(n)) + " { %s } else { %s }" % (ret("y"), ret("z"))
+    else:
+        body = "if " + "not " * n + "x == 1 { %s } else { %s }" % (ret("y"), ret("z"))
+    p = Program()
+    p.tid, p.name = tid, name
+    p.splitters, p.cond_fields = ["u"], ["x"]
+    p.literals = {"x": [0, 1, 2, n - 1, n]}
+    p.n_returns = 2
+    p.note = "deep:%s:%d" % (shape, n)
+    p.text = "def %s { splitters: u %s }" % (name, body)
+    p.tokens = p.text.split()
+    return p
+
+
 def _relabel(tok, old_tid, new_tid):
     """Group labels carry the id of the text they belong to; derived texts get their own."""
     if len(tok) > 2 and tok[0] in "\"'" and tok[1:-1].startswith(old_tid + "."):
